@@ -40,8 +40,18 @@ POOL.update(
         "A8": (["H", "H", "e-"], ["H2", "e-"], (10, 300), "GAS_TWOBODY"),
     }
 )
+# third pool: reactions with nothing on one side (freeze-out of the electron, loss and source terms)
+POOL.update(
+    {
+        "F0": (["e-"], [], (-1.0, -1.0), "GAS_TWOBODY"),
+        "F1": (["H"], [], (-1.0, -1.0), "GAS_TWOBODY"),
+        "F2": ([], ["H"], (-1.0, -1.0), "GAS_TWOBODY"),
+        "F3": (["e-"], [], (10.0, 300.0), "GAS_TWOBODY"),
+    }
+)
+IDS3 = ["F0", "F1", "F2", "F3", "B0", "B1"]
 IDS2 = ["E0", "E1", "E2", "O0", "O1", "S0", "S1", "A0", "A3", "A7", "A8"]
-IDS = [k for k in POOL if k not in ("E0", "E1", "E2", "O0", "O1", "S0", "S1", "A7", "A8")]
+IDS = [k for k in POOL if k not in ("E0", "E1", "E2", "O0", "O1", "S0", "S1", "A7", "A8", "F0", "F1", "F2", "F3")]
 MODES = [None, "brief", "minimal", "short"]
 
 
@@ -188,6 +198,7 @@ def run(ctx):
     nmax = 4 if ctx.tier == "quick" else 5
     lists = [l for n in range(1, nmax + 1) for l in itertools.product(IDS, repeat=n)]
     lists += [l for n in range(2, 5) for l in itertools.product(IDS2, repeat=n)]
+    lists += [l for n in range(2, 5) for l in itertools.product(IDS3, repeat=n)]
     chunks = [lists[i : i + 300] for i in range(0, len(lists), 300)]
     tot = judged = skipped = 0
     for n, j, s, viols in ctx.pmap(run_chunk, chunks):
@@ -208,7 +219,7 @@ def run(ctx):
         "evaluations": judged + skipped + nedit,
         "searches_after_in_place_edit": nedit,
         "distinct_nontrivial": judged,
-        "rule": f"all lists of length <= {nmax} over a pool of 11 reactions (two bases, a multiplicity-only pair; permuted reactants / products, windows differing in both bounds / only the upper / only the lower bound, other type, unknown type) and a second pool of electron/label permutations x modes default/brief/minimal/short; O(n^2) pairwise reference; removal round trip and second call",
+        "rule": f"all lists of length <= {nmax} over a pool of 11 reactions (two bases, a multiplicity-only pair; permuted reactants / products, windows differing in both bounds / only the upper / only the lower bound, other type, unknown type) a second pool of electron/label permutations and a third of reactions with an empty side x modes default/brief/minimal/short; O(n^2) pairwise reference; removal round trip and second call",
         "samples": [list(l) for l in lists[:: max(1, len(lists) // 6)][:6]],
         "lists": len(lists),
         "judged_list_mode_pairs": judged,
